@@ -60,6 +60,10 @@ CHECKS = {
    technique="same schema states; documents generated FROM the schema by an independent generator (all optional subsets, null where allowed, leaf spellings, extra keys, key-order permutations, oneOf variants) and all single-fault mutants; decoded directly and as request bodies",
    text="For every schema state the reference generator enumerates valid documents (every subset of optional properties up to 4 optionals, null at every nullable site, boundary and escaped leaf spellings, additional properties where allowed incl. awkward keys, every key order up to 4 keys, each oneOf variant, allOf member variations) and their single-fault mutants (each required key dropped; each declared property replaced by a token of each other JSON type), at every nesting level. Valid documents must decode and re-encode to an equal JSON value; faults must be rejected with an error naming the property. The same documents are posted to an operation whose body is the schema and Parse() must agree.",
    note="extra keys where the schema does not allow them, fractional numbers into integers and malformed format text are don't-cares and not generated; documents come from the spec view, never from goag's encoder"),
+ "C12": dict(engine="maporder", ref="§6",
+   technique="stateless schedule exploration with deviation bounding where the schedule is the iteration order of every map range: sources of goag and kin-openapi rewritten at check time (go build -overlay) so that each dynamic range over a map is a choice point; every permutation at every point (bound 1), pairs of points inside goag (bound 2, thorough)",
+   text="At check time every `range` over a map and every maps.Keys/Values call in the CURRENT sources of goag, goag/specification, goag/generator and kin-openapi's openapi3 and jsoninfo is rewritten to iterate in an order owned by the explorer (49 sites today) and the explorer binary is built with -overlay. For each spec of the corpus (two 'map-fat' specs with >= 4 entries in every map-typed construct incl. keys differing only by case, nested inline objects, discriminator mapping, multi-scheme requirements, server variables whose defaults mention each other; healthy level-1 cells; repository specs) the all-sorted schedule is run twice (ownership gate) and then every permutation of every dynamic iteration with all others sorted; thorough adds every pair of deviations inside goag's packages. Outcome and sha256 of every written file must equal the all-sorted run, and the all-sorted run must equal the uninstrumented CLI, which is additionally run 4-8 times in separate processes.",
+   note="n! permutations up to 5 keys, transpositions+reversal+rotations above; x/tools/imports, text/template, yaml, encoding/json are not instrumented; deviations are bounded at 1 (2 inside goag in thorough)"),
 }
 NA_REASON = "check not built yet (work in progress; see DESIGN.md §13)"
 def main():
@@ -76,6 +80,7 @@ def main():
       "engines": [
         {"name": "genrun", "path": "genrun/", "serves_properties": ["C01","C13","C15","C19","C12"], "kind_free_text": "drives the real generator in sequential worker processes; static oracles (go/parser, gofmt, go/types)"},
         {"name": "cells", "path": "cells/ spec/", "serves_properties": ALL, "kind_free_text": "term algebra of OpenAPI documents and the enumerators of the dialect lattice"},
+        {"name": "maporder", "path": "maporder/ vmap/ cmd/maporder/", "serves_properties": ["C12"], "kind_free_text": "overlay instrumenter of map iteration order + deviation-bounded schedule explorer"},
         {"name": "batch+drv", "path": "batch/ drv/ refmodel/", "serves_properties": ["C02","C03","C04","C05","C06","C07","C08","C09","C10","C11","C14","C16","C17","C18"], "kind_free_text": "compiles many generated packages with a reflection driver into one binary and runs every input of the property's alphabet against reference models"},
       ],
       "checks": [],
